@@ -190,6 +190,9 @@ let d_parse_op s = match sp '.' s with
   | ["gt"; i; j] -> DGet (ni (ios i), ni (ios j))
   | ["cp"; i; j] -> DCopy (ni (ios i), ni (ios j))
   | ["mv"; i; j] -> DMove (ni (ios i), ni (ios j))
+  | ["as"; i; j] -> DAssign (ni (ios i), ni (ios j))
+  | ["ma"; i; j] -> DMoveAssign (ni (ios i), ni (ios j))
+  | ["sw"; i; j] -> DSwap (ni (ios i), ni (ios j))
   | ["dr"; i] -> DDrop (ni (ios i))
   | ["cl"; i; x] -> DCall (ni (ios i), ni (ios x))
   | ["st"; f] -> DStale (ni (ios f))
@@ -198,7 +201,7 @@ let d_parse_op s = match sp '.' s with
 let d_expected_diag st o = match o with
   | DOpen (_, f) -> Some (DgOpen f)
   | DLoad (_, j, s) -> (match slot_owner st j with
-      | Some (OLib h) -> (match nth_error st.hs h with Some r -> Some (DgSym (r.hlib, s)) | None -> None)
+      | Some (OLib (Some h)) -> (match nth_error st.hs h with Some r -> Some (DgSym (r.hlib, s)) | None -> None)
       | _ -> None)
   | _ -> None
 let d_obs_res st o = function
@@ -206,10 +209,12 @@ let d_obs_res st o = function
   | DRaise dle -> if dle <> None && dle = d_expected_diag st o then "raise:1" else "raise:0"
   | DCallOk (lib, s, x) -> "call:" ^ string_of_int (d_fun (inn lib) (inn s) (inn x))
   | DUnmapped -> "unmapped"
+(* an owner is shown as its kind and the handle its shared_ptr refers to, "~" when it is null (moved from) *)
+let d_obs_h = function Some h -> string_of_int (inn h) | None -> "~"
 let d_obs_state st =
   let hsl = List.map (fun r -> string_of_int (inn r.hlib) ^ ":" ^ string_of_int (inn r.closes)) st.hs in
-  let sl = List.map (function None -> "-" | Some (OLib h) -> "L" ^ string_of_int (inn h)
-                              | Some (OSym (h, _)) -> "S" ^ string_of_int (inn h) | Some (ORaw h) -> "R" ^ string_of_int (inn h)) st.slots in
+  let sl = List.map (function None -> "-" | Some (OLib h) -> "L" ^ d_obs_h h
+                              | Some (OSym (h, _, _)) -> "S" ^ d_obs_h h | Some (ORaw h) -> "R" ^ d_obs_h h) st.slots in
   String.concat "|" [field_of_list hsl; field_of_list sl; "nc=" ^ string_of_int (inn st.null_closes)]
 let model_d n ops =
   let st = ref (d_init (ni (ios n))) in
@@ -218,13 +223,14 @@ let model_d n ops =
       let s = d_obs_res !st o r in
       st := st'; s ^ "|" ^ d_obs_state !st) (List.map d_parse_op (list_of_field ops)) in
   String.concat ";" (parts @ ["fin|" ^ d_obs_state (d_finish !st)])
-(* observation -> dstate as far as observable (use counts are not; the symbol name of a symbol object is not) *)
+(* observation -> dstate as far as observable (use counts are not; which function a symbol object holds is not) *)
 let d_parse_step s = match sp '|' s with
   | [r; hsl; sl; nc] ->
       let hs = List.map (fun x -> match sp ':' x with [l; c] -> { hlib = ni (ios l); refs = ni 0; closes = ni (ios c) } | _ -> failwith "h") (list_of_field hsl) in
       let slots = List.map (fun x -> if x = "-" then None else
-                              let h = ni (ios (String.sub x 1 (String.length x - 1))) in
-                              match x.[0] with 'L' -> Some (OLib h) | 'S' -> Some (OSym (h, ni 0)) | 'R' -> Some (ORaw h) | _ -> failwith "slot") (list_of_field sl) in
+                              let hs = String.sub x 1 (String.length x - 1) in
+                              let h = if hs = "~" then None else Some (ni (ios hs)) in
+                              match x.[0] with 'L' -> Some (OLib h) | 'S' -> Some (OSym (h, ni 0, ni 0)) | 'R' -> Some (ORaw h) | _ -> failwith "slot") (list_of_field sl) in
       let nc = if String.length nc > 3 && String.sub nc 0 3 = "nc=" then ios (String.sub nc 3 (String.length nc - 3)) else failwith "nc" in
       (r, { hs = hs; slots = slots; pend = None; null_closes = ni nc })
   | _ -> failwith "dstep"
@@ -232,56 +238,87 @@ let rec d_hs_extends a b = match a, b with
   | [], _ -> true
   | x :: r, y :: r' -> x.hlib = y.hlib && inn x.closes <= inn y.closes && d_hs_extends r r'
   | _ :: _, [] -> false
-let d_kind = function None -> 0 | Some (OLib _) -> 1 | Some (OSym _) -> 2 | Some (ORaw _) -> 3
+let d_null_of = function OLib _ -> OLib None | OSym (_, a, b) -> OSym (None, a, b) | ORaw _ -> ORaw None
+let d_same_kind a b = match a, b with OLib _, OLib _ | OSym _, OSym _ | ORaw _, ORaw _ -> true | _ -> false
+(* all slots except the listed ones are unchanged *)
+let d_others_same prev cur except =
+  List.length prev = List.length cur &&
+  List.for_all (fun k -> List.mem k except || List.nth prev k = List.nth cur k) (List.init (List.length prev) (fun k -> k))
 let oracle_d n ops obs =
   let ops = List.map d_parse_op (list_of_field ops) in
   let steps = List.map d_parse_step (sp ';' obs) in
   if List.length steps <> List.length ops + 1 then false else begin
     let prev = ref (d_init (ni (ios n))) in
-    (* the symbol name held by each symbol slot is the oracle's own bookkeeping of the case (not observable) *)
+    (* which function (symbol name) each symbol slot holds is the oracle's own bookkeeping of the case: it follows the
+       value semantics the property demands of copies and assignments *)
     let names = Array.make (ios n) (-1) in
     let ok = ref true in
     List.iteri (fun k (r, st) ->
+        let same_hs = st.hs = !prev.hs in
+        let len_hs = List.length st.hs = List.length !prev.hs in
+        let unchanged = same_hs && st.slots = !prev.slots in
         let good =
           if k < List.length ops then begin
             let o = List.nth ops k in
+            let own i = slot_owner !prev i in
+            let now i = nth_error st.slots i in
             (* every handle: closed at most once, and closed exactly when no owner object is left; dlclose(NULL) never *)
             d_state_ok st && d_hs_extends !prev.hs st.hs && List.length st.slots = List.length !prev.slots
             && (match o with
                 | DOpen (i, f) when slot_empty !prev i ->
                     if d_world.lib_exists f then
                       r = "ok" && List.length st.hs = List.length !prev.hs + 1
-                      && (match nth_error st.slots i with Some (Some (OLib h)) -> inn h = List.length !prev.hs | _ -> false)
+                      && (match now i with Some (Some (OLib (Some h))) -> inn h = List.length !prev.hs | _ -> false)
+                      && d_others_same !prev.slots st.slots [inn i]
                     else (* failed open: dl exception with the diagnostic, nothing created, nothing closed *)
-                      r = "raise:1" && st.hs = !prev.hs && st.slots = !prev.slots
-                | DLoad (i, j, s) when slot_empty !prev i && (match slot_owner !prev j with Some (OLib _) -> true | _ -> false) ->
-                    let h = (match slot_owner !prev j with Some (OLib h) -> h | _ -> ni 0) in
+                      r = "raise:1" && unchanged
+                | DLoad (i, j, s) when slot_empty !prev i && (match own j with Some (OLib (Some _)) -> true | _ -> false) ->
+                    let h = (match own j with Some (OLib (Some h)) -> h | _ -> ni 0) in
                     let lib = (match nth_error !prev.hs h with Some rr -> rr.hlib | None -> ni 99) in
                     if d_world.sym_exists lib s then
                       (names.(inn i) <- inn s;
-                       r = "ok" && st.hs = !prev.hs && nth_error st.slots i = Some (Some (OSym (h, ni 0))))
+                       r = "ok" && same_hs && now i = Some (Some (OSym (Some h, ni 0, ni 0))) && d_others_same !prev.slots st.slots [inn i])
                     else (* failed look-up: dl exception with the diagnostic, the library and every owner stay as they were *)
-                      r = "raise:1" && st.hs = !prev.hs && st.slots = !prev.slots
+                      r = "raise:1" && unchanged
                 | DCall (i, x) ->
-                    (match slot_owner !prev i with
-                     | Some (OSym (h, _)) ->
-                         (* a symbol object that exists can be called: its library is still mapped *)
+                    (match own i with
+                     | Some (OSym (Some h, _, _)) ->
+                         (* an owning symbol can be called: the library of the function it holds is mapped *)
                          let lib = (match nth_error !prev.hs h with Some rr -> inn rr.hlib | None -> 99) in
-                         r = "call:" ^ string_of_int (d_fun lib names.(inn i) (inn x)) && st.hs = !prev.hs && st.slots = !prev.slots
-                     | _ -> r = "skip" && st.hs = !prev.hs && st.slots = !prev.slots)
-                | DCopy (i, j) when slot_empty !prev i && slot_owner !prev j <> None ->
+                         r = "call:" ^ string_of_int (d_fun lib names.(inn i) (inn x)) && unchanged
+                     | _ -> r = "skip" && unchanged)
+                | DGet (i, j) when slot_empty !prev i && (match own j with Some (OLib _) -> true | _ -> false) ->
+                    let h = (match own j with Some (OLib h) -> h | _ -> None) in
+                    r = "ok" && same_hs && now i = Some (Some (ORaw h)) && d_others_same !prev.slots st.slots [inn i]
+                | DCopy (i, j) when slot_empty !prev i && own j <> None ->
                     names.(inn i) <- names.(inn j);
-                    r = "ok" && List.length st.hs = List.length !prev.hs && nth_error st.slots i = nth_error !prev.slots j
-                | DMove (i, j) when slot_empty !prev i && slot_owner !prev j <> None ->
+                    r = "ok" && same_hs && now i = nth_error !prev.slots j && d_others_same !prev.slots st.slots [inn i]
+                | DMove (i, j) when slot_empty !prev i && own j <> None ->
                     names.(inn i) <- names.(inn j);
-                    r = "ok" && List.length st.hs = List.length !prev.hs && nth_error st.slots i = nth_error !prev.slots j
-                    && nth_error st.slots j = Some None
-                | DGet (i, j) when slot_empty !prev i && (match slot_owner !prev j with Some (OLib _) -> true | _ -> false) ->
-                    r = "ok" && List.length st.hs = List.length !prev.hs
-                | DDrop i when slot_owner !prev i <> None ->
-                    r = "ok" && List.length st.hs = List.length !prev.hs && nth_error st.slots i = Some None
-                | DStale _ -> r = "ok" && st.hs = !prev.hs && st.slots = !prev.slots
-                | _ -> r = "skip" && st.hs = !prev.hs && st.slots = !prev.slots)
+                    r = "ok" && same_hs && now i = nth_error !prev.slots j
+                    && (match own j with Some b -> now j = Some (Some (d_null_of b)) | None -> false)
+                    && d_others_same !prev.slots st.slots [inn i; inn j]
+                | DAssign (i, j) when (match own i, own j with Some a, Some b -> d_same_kind a b | _ -> false) ->
+                    (* the target becomes an owner of what the source owns; the source keeps it; the target's previous
+                       library is closed exactly if nobody else owns it (d_state_ok) *)
+                    names.(inn i) <- names.(inn j);
+                    r = "ok" && len_hs && now i = nth_error !prev.slots j && d_others_same !prev.slots st.slots [inn i]
+                | DMoveAssign (i, j) when (match own i, own j with Some a, Some b -> d_same_kind a b | _ -> false) ->
+                    if i = j then r = "ok" && unchanged
+                    else begin
+                      names.(inn i) <- names.(inn j);
+                      r = "ok" && len_hs && now i = nth_error !prev.slots j
+                      && (match own j with Some b -> now j = Some (Some (d_null_of b)) | None -> false)
+                      && d_others_same !prev.slots st.slots [inn i; inn j]
+                    end
+                | DSwap (i, j) when (match own i, own j with Some a, Some b -> d_same_kind a b | _ -> false) ->
+                    let t = names.(inn i) in names.(inn i) <- names.(inn j); names.(inn j) <- t;
+                    r = "ok" && same_hs && now i = nth_error !prev.slots j && now j = nth_error !prev.slots i
+                    && d_others_same !prev.slots st.slots [inn i; inn j]
+                | DDrop i when own i <> None ->
+                    r = "ok" && len_hs && now i = Some None && d_others_same !prev.slots st.slots [inn i]
+                | DStale _ -> r = "ok" && unchanged
+                | _ -> r = "skip" && unchanged)
           end else
             (* complete history: every handle ever opened has been closed exactly once *)
             r = "fin" && d_state_ok st && List.length st.hs = List.length !prev.hs && d_hs_extends !prev.hs st.hs
